@@ -164,6 +164,20 @@ def run(ctx, chk):
             if nb is not None:
                 work.append(nb)
     n_sites = 0
+    # blocks reachable on some explored path from the entry points when assertion checks are NOT taken for granted: an
+    # `assert!`/`debug_assert!` whose failing branch no path reaches (the condition is decided by what the path already
+    # knows: a constant argument, an earlier test of the same quantity) cannot fire
+    reached = set()
+    reach_ok = True
+    for eb in entry:
+        try:
+            for p in common.mk_engine(fb, assume_asserts=False, loop_unroll=2, max_paths=20000).run(eb):
+                for fid, pth, bb_ in p.state.trace:
+                    reached.add((pth, bb_))
+                if p.where:
+                    reached.add((p.where[0], p.where[1]))
+        except psi.PathLimit:
+            reach_ok = False
     for path, b in sorted(closure.items()):
         chk.saw(b)
         for i, blk in enumerate(b.blocks):
@@ -191,6 +205,8 @@ def run(ctx, chk):
                     n_sites += 1
                     short = path.split('::')[-1]
                     ok, why = discharge_panicky(fb, b, i, t, nm)
+                    if not ok and reach_ok and mir.is_assert_failure(b, i) and (path, i) not in reached:
+                        ok, why = True, 'assertion failure branch not reachable on any explored path from the now() entry points (its condition is decided by earlier tests / constant arguments)'
                     chk.ob('C14.M3', 'call:%s:%s' % (short, nm.split('::')[-1]), ok, b.where(i), why)
     chk.analysed['call_sites'] += n_sites
     chk.tables['closure'] = sorted(closure)
